@@ -19,16 +19,20 @@ FUNCTIONS = ["wannierberri.fourier.fft.FFT_R_to_k.__init__/__call__/transform/ex
              "wannierberri.grid.grid.GridAbstract.points_FFT", "wannierberri.utility.cached_einsum"]
 BOUNDS = dict(quick=dict(nb="1..2", R_sets="7 sets of 5..27 R-vectors, all larger than the FFT box (folding), one not inversion-symmetric", NKFFT="(1,1,1) (2,1,2) (2,2,2) (3,1,1) (2,3,1) (4,1,1) (1,1,4)",
                          dK="4 concrete shifts incl. 0 and non-dyadic doubles", der="0..2 (concrete triclinic lattice+centres), 3 and vector-valued der=2 for nb=1 on the box (2,1,1), 1 (symbolic lattice, centres)", data="symbolic complex X(R), |X|<=1",
-                         hermitian_flag="both", fftlib="fftw(stub) numpy(stub) slow k-list"),
+                         hermitian_flag="both", fftlib="fftw(stub) numpy(stub) slow k-list",
+                         reconfiguration="one Rvectors object through 2 schedules of 6..7 set_fft_R_to_k calls (other dK, other box, other library, k-list in between), der 0..1"),
               thorough=dict(nb="1..4", R_sets="13 sets of 5..125 R-vectors incl. far ones (|R_i| up to 11), 2 not inversion-symmetric; all fold onto the boxes used",
                             NKFFT="the quick ones + (4,2,2) (3,2,2) (1,5,1) (1,3,2) (2,2,1) and prime / anisotropic ones (5,1,1) (1,7,1) (1,1,5) (3,5,1) (5,1,2) (2,2,3) (6,1,1) (4,3,1) (3,3,2) (2,5,2) (4,4,2) (3,3,3) (1,6,2) (5,5,1) "
                             "(7,2,1) (4,2,4) (2,7,1) (1,3,5) (1,2,5), up to 32 k-points", dK="6 concrete shifts",
                             der="0..3 with concrete lattice (every derivative order on 9 prime / anisotropic boxes, up to 2 R-sets each), matrices with one and two Cartesian indices with der 1..3 / 0..2 (array rank up to 9), "
                             "symbolic lattice and centres with der 1 (nb<=3), 2 (nb=2), 3 (nb=1)", data="symbolic complex X(R), |X|<=1", hermitian_flag="both", fftlib="fftw(stub) numpy(stub) slow k-list",
-                            Data_K_R="HH_K and Xbar('Ham',1..3) on 10 systems, nb up to 4"))
+                            Data_K_R="HH_K and Xbar('Ham',1..3) on 10 systems, nb up to 4",
+                            reconfiguration="one Rvectors object (and copies of a configured one) through 4 schedules of 6..7 set_fft_R_to_k calls, 8 systems, der 0..3, nb 1..3"))
 EXPLANATION = ("The real FFT_R_to_k / Rvectors / Data_K_R code runs on symbolic complex R-space matrices X(R) (and, in the symbolic-lattice cases, symbolic lattice vectors and "
                "Wannier centres); numpy.fft and pyfftw are replaced by the DFT definition. Every output entry is a polynomial in the atoms with double coefficients (twiddles, phases); "
-               "z3 (QF_LRA over the monomials) decides that each back end agrees with the explicit sum over R written in the harness to 1e-9 for all |atoms|<=1, and that the outputs are Hermitian to the same tolerance.")
+               "z3 (QF_LRA over the monomials) decides that each back end agrees with the explicit sum over R written in the harness to 1e-9 for all |atoms|<=1, and that the outputs are Hermitian to the same tolerance. The 'reconfigure' cases configure ONE Rvectors object "
+               "repeatedly (set_fft_R_to_k with another K-shift, box, library, or a k-list in between, and a copy() of a configured object) and decide after every call that the transform belongs to the k-points of the "
+               "current configuration (no state of an earlier configuration survives).")
 ASSUMPTIONS = ["|X(R)_ab| components, lattice entries and reduced centres in [-1,1] (tolerance obligations; the identities are homogeneous in X)",
                "hermitian-data cases: R-set closed under inversion and X(-R)=X(R)^dagger (the statement's 'Hermitian real-space model')"]
 OUTSIDE = ["internals of numpy.fft / FFTW (replaced by the DFT definition; the stub is validated against both libraries on random input in the 'stub validation' case and in every replay)",
@@ -206,6 +210,50 @@ def case_backends(rec, rset, NK, dK, nb, der, herm_data, symlat, trailing=()):
     rec.explore(body)
 
 
+SCHEDULES = {   # (mode, NKFFT, index into DKS, fftlib): one Rvectors object is configured step after step
+    "A": [("fft", (2, 1, 2), 0, "numpy"), ("fft", (2, 1, 2), 1, "numpy"), ("klist", (3, 1, 1), 3, None), ("fft", (3, 1, 1), 4, "fftw"), ("fft", (3, 1, 1), 4, "slow"), ("fft", (2, 1, 2), 0, "fftw")],
+    "B": [("fft", (3, 1, 1), 3, "fftw"), ("fft", (3, 1, 1), 1, "fftw"), ("fft", (2, 1, 1), 1, "slow"), ("fft", (2, 1, 1), 5, "slow"), ("klist", (2, 1, 1), 0, None), ("fft", (2, 1, 1), 2, "numpy"), ("fft", (1, 1, 1), 4, "numpy")],
+    "C": [("klist", (2, 2, 1), 1, None), ("fft", (2, 2, 1), 5, "slow"), ("copy", (2, 2, 1), 3, "fftw"), ("fft", (1, 3, 1), 0, "numpy"), ("fft", (1, 3, 1), 4, "fftw"), ("copy", (2, 1, 2), 1, "numpy")],
+    "D": [("fft", (5, 1, 1), 0, "fftw"), ("fft", (1, 1, 1), 1, "fftw"), ("fft", (2, 3, 1), 3, "numpy"), ("klist", (1, 1, 4), 5, None), ("fft", (2, 3, 1), 4, "numpy"), ("fft", (2, 3, 1), 4, "slow"), ("copy", (2, 3, 1), 0, "slow")],
+}
+
+
+def _configure(rv, step, nb):
+    """returns (the Rvectors object to use, k-points of this step)"""
+    mode, NK, idk, lib = step
+    kpts = kpoints(NK, DKS[idk])
+    if mode == "klist":
+        rv.set_fft_R_to_k(NK=None, num_wann=nb, k_list=kpts)
+        return rv, kpts
+    if mode == "copy":       # what Data_K_R does with the system's Rvectors: copy of an already configured object, configured again
+        rv = rv.copy()
+    rv.set_fft_R_to_k(NK=NK, num_wann=nb, fftlib=lib, dK=np.array(DKS[idk]))
+    return rv, kpts
+
+
+def case_reconfigure(rec, rset, nb, der, schedule):
+    """ONE Rvectors object configured again and again (other K-shift, other box, other library, k-list in between): every transform equals the explicit sum at the k-points of the CURRENT configuration"""
+    _shadow()
+    iR = np.array(RSETS[rset])
+    X = mkdata(rset, nb, True)
+    lat, wc = mklat(nb, False)
+    par = dict(test="reconfigure", rset=rset, NK=[0, 0, 0], dK=[0, 0, 0], nb=nb, der=der, herm_data=True, trailing=[], schedule=schedule)
+
+    def body(rec):
+        rec.witness = lambda env: _witness(env, X, lat, wc, **par)
+        rv = RV.Rvectors(lattice=lat, iRvec=iR, shifts_left_red=wc)
+        for istep, step in enumerate(SCHEDULES[schedule]):
+            use, kpts = _configure(rv, step, nb)
+            ref = reference(iR, kpts, X, lat, wc, der)
+            for hflag in (False, True):
+                out = use.R_to_k(use.apply_expdK(X.copy()), der=der, hermitian=hflag)
+                rec.concrete(f"step {istep} {step}: output shape", np.shape(out) == np.shape(ref), f"{np.shape(out)} vs {np.shape(ref)}", key="reconfigured Rvectors: output shape")
+                if np.shape(out) == np.shape(ref):
+                    rec.close(f"step {istep} {step} hermitian={hflag}: transform after re-configuration == explicit sum at the current k-points", out, (ref + dagger(ref)) * 0.5 if hflag else ref, TOL,
+                              key="Rvectors configured more than once: transform differs from the explicit sum at the current k-points")
+    rec.explore(body)
+
+
 def case_dataK(rec, rset, NK, dK, nb, dermax, symlat):
     """Data_K_R.HH_K and Xbar('Ham', der) for the three FFT back ends and the k-list constructor, UU_K = 1"""
     _shadow()
@@ -275,7 +323,7 @@ def cases(tier, seed):
     out = [Case("stub validation", case_stub_validation, dict(seed=seed))]
     def add(kind, **kw):
         name = kind + " " + " ".join(f"{k}={v}" for k, v in kw.items())
-        out.append(Case(name, case_backends if kind == "backends" else case_dataK, kw, timeout=3000))
+        out.append(Case(name, dict(backends=case_backends, dataK=case_dataK, reconfigure=case_reconfigure)[kind], kw, timeout=3000))
     # der = 0: many boxes / shifts, both data kinds
     combos0 = [("cube27", (2, 2, 2), 0), ("xz15", (2, 1, 2), 1), ("x7", (3, 1, 1), 3), ("xy13", (2, 3, 1), 1), ("x7", (4, 1, 1), 0), ("z9", (1, 1, 4), 3),
                ("star7", (2, 2, 2), 1), ("cube27", (1, 1, 1), 0), ("x7", (1, 1, 1), 2), ("asym6", (2, 1, 1), 1), ("asym6", (3, 2, 1), 0)]
@@ -311,7 +359,16 @@ def cases(tier, seed):
     add("dataK", rset="x7", NK=(3, 1, 1), dK=DKS[3], nb=2, dermax=2, symlat=False)
     add("dataK", rset="star7", NK=(2, 2, 2), dK=DKS[1], nb=1, dermax=1, symlat=False)
     add("dataK", rset="x7", NK=(2, 1, 1), dK=DKS[0], nb=2, dermax=1, symlat=True)
+    # one Rvectors object configured more than once (K-shift, box, library, k-list changed between the calls)
+    add("reconfigure", rset="xz15", nb=2, der=0, schedule="A")
+    add("reconfigure", rset="x7", nb=2, der=1, schedule="B")
     if not q:
+        add("reconfigure", rset="xy13", nb=2, der=1, schedule="C")
+        add("reconfigure", rset="far11", nb=2, der=2, schedule="D")
+        add("reconfigure", rset="cube27", nb=3, der=0, schedule="A")
+        add("reconfigure", rset="star7", nb=1, der=3, schedule="B")
+        add("reconfigure", rset="yz21", nb=2, der=0, schedule="C")
+        add("reconfigure", rset="x13", nb=1, der=2, schedule="D")
         _deep_cases(add)
     return out
 
@@ -397,7 +454,15 @@ def replay(rec):
         elif np.abs(out - want).max() > 0.9 * TOL:
             bad.append(f"{tag}: max|diff|={np.abs(out - want).max():.3e}")
     try:
-        if w["test"] == "backends":
+        if w["test"] == "reconfigure":
+            rv = RV.Rvectors(lattice=lat, iRvec=iR, shifts_left_red=wc)
+            for istep, step in enumerate(SCHEDULES[w["schedule"]]):
+                use, kp = _configure(rv, tuple(tuple(x) if isinstance(x, list) else x for x in step), nb)
+                ref = _np_reference(iR, kp, X, lat, wc, der)
+                for hflag in (False, True):
+                    out = use.R_to_k(use.apply_expdK(X.copy()), der=der, hermitian=hflag)
+                    cmp(f"step {istep} {step} hermitian={hflag} vs explicit sum at the current k-points", out, 0.5 * (ref + dag(ref)) if hflag else ref)
+        elif w["test"] == "backends":
             rv = RV.Rvectors(lattice=lat, iRvec=iR, shifts_left_red=wc)
             ref = _np_reference(iR, kpts, X, lat, wc, der)
             for hflag in (False, True):
@@ -435,4 +500,4 @@ def replay(rec):
         if "wannierberri" in tb:
             return True, f"real code raises {type(e).__name__}: {str(e)[:200]}"
         raise
-    return bool(bad), f"rset={w['rset']} NK={NK} dK={dK.tolist()} nb={nb}: " + ("; ".join(bad[:4]) if bad else "all back ends agree with the explicit sum")
+    return bool(bad), (f"rset={w['rset']} nb={nb} der={der} schedule {w['schedule']}: " if w["test"] == "reconfigure" else f"rset={w['rset']} NK={NK} dK={dK.tolist()} nb={nb}: ") + ("; ".join(bad[:4]) if bad else "all back ends agree with the explicit sum")
